@@ -11,6 +11,12 @@ side of the script is `.error`;
 `run-reject`: the circuit's script differs from the native one; `accept` otherwise).
 `trans`: transcript structure of the *native* script (`o` observed / `s` sampled base elements, `b`
 sampled bits). `elems`: scalars per element class of the proof.
+
+  checks <uni|batch> <the same numbers>
+    → chk ood=<i,j,…|-> tsum=<n>
+The algebraic checks of the *circuit's* script for the shape: the instances with an out-of-domain
+check and the number of terminals under the cross-AIR terminal-sum check (compared with the checks
+the harness saw decisive, in both verifiers, on proofs forged by an adversarial prover).
 Unknown / malformed command → `bad-op`.
 -/
 import P3R.Model.VerifierScript
@@ -48,6 +54,27 @@ def run (line : String) : String :=
         | "uni" =>
           if k = 1 then go (nativeUni s) (circuitUni s) (nativeUniRounds s) else "bad-op"
         | "batch" => go (nativeBatch s) (circuitBatch s) (nativeBatchRounds s)
+        | _ => "bad-op"
+      | none => "bad-op"
+    | _ => "bad-op"
+  | "checks" :: mode :: nums =>
+    match nums.mapM String.toNat? with
+    | some (zk :: d :: _dg :: nrc :: fr :: fp :: q :: cp :: qp :: _lmh :: k :: rest) =>
+      match parseInsts rest k with
+      | some insts =>
+        let s : Shape := { zk := zk != 0, D := d, nrc := nrc, insts := insts, friRounds := fr,
+                           finalPolyLen := fp, queries := q, commitPowBits := cp, queryPowBits := qp }
+        let go (circ : Except String Script) : String :=
+          match circ with
+          | .error _ => "chk build-err"
+          | .ok sc =>
+            let oods := sc.checks.filterMap fun c => match c with | .ood i _ => some i | _ => none
+            let ts := sc.checks.flatMap fun c => match c with | .terminalSum l => l | _ => []
+            let oodStr := if oods.isEmpty then "-" else ",".intercalate (oods.map toString)
+            s!"chk ood={oodStr} tsum={ts.length}"
+        match mode with
+        | "batch" => go (circuitBatch s)
+        | "uni" => if k = 1 then go (circuitUni s) else "bad-op"
         | _ => "bad-op"
       | none => "bad-op"
     | _ => "bad-op"
